@@ -5,7 +5,7 @@
    the frames idx of b, in that order, on all three channels, with b's frame rate.  Randomness is an argument:
    [s] = what random.sample returned ([possible_draw]: right size, duplicate-free, in range), [perm] = what
    tf.random.shuffle returned (a permutation of range n).  No bound on the number of frames except where stated. *)
-From Coq Require Import ZArith List Bool Arith Sorted Permutation SpecFloat QArith_base String.
+From Coq Require Import ZArith List Bool Arith Sorted Permutation SpecFloat QArith_base.
 Require Import Result F32 C16_Frames C16_Run C16_Lists C16_Select C16_Dropout C16_Cap C16_CapAll C16_TF C16_GenTie Gen_C16.
 Import ListNotations.
 Local Open Scope nat_scope.
@@ -91,7 +91,7 @@ Print Assumptions drops_about_the_fraction.
 Theorem keeps_at_least_one : forall A be (b : body A) d s r kept,
   1 <= frames b -> (Z.of_nat (frames b) <= CAP_BOUND)%Z ->
   possible_draw cap_c (frames b) (fraction d) s -> dropout cap_c be b d s = Ok (r, kept) -> 1 <= length kept.
-Proof. exact (fun A be b d s r kept H1 H2 => @C16_Dropout.keeps_one_if_cap_ok A cap_c be b d s r kept (cap_ok_upto_bound _ H1 H2)). Qed.
+Proof. exact @C16_Cap.keeps_one_upto_bound. Qed.
 Print Assumptions keeps_at_least_one.
 Theorem keeps_at_least_one_beyond : forall A c be (b : body A) d s r kept,
   cap_ok c (frames b) -> possible_draw c (frames b) (fraction d) s -> dropout c be b d s = Ok (r, kept) -> 1 <= length kept.
@@ -197,3 +197,110 @@ Theorem tf_pinned_never_last_frame : forall A (b : body A) p perm1 r kept,
   Permutation perm1 (seq 0 (frames b - 1)) -> tf_pinned_dropout_given b p perm1 = Ok (r, kept) -> ~ In (frames b - 1) kept.
 Proof. exact @C16_TF.tf_pinned_never_last_frame. Qed.
 Print Assumptions tf_pinned_never_last_frame.
+
+(* ---- ties: the facts regenerated from /repo on this run equal what the model was written from ---- *)
+From Coq Require Import String.
+Local Open Scope string_scope.
+Theorem generic_dropout_stmts_tie : Gen_C16.generic_dropout_stmts =
+  [ "data_len = len(self.data)";
+    "dropout_number = min(int(data_len * dropout_percent), int(data_len * CAP))";
+    "dropout_indexes = set(sample(range(0, data_len), dropout_number))";
+    "select_indexes = [i for i in range(0, data_len) if i not in dropout_indexes]";
+    "return (self.select_frames(select_indexes), select_indexes)" ].
+Proof. exact C16_GenTie.generic_dropout_stmts_tie. Qed.
+Print Assumptions generic_dropout_stmts_tie.
+Theorem generic_select_stmts_tie : Gen_C16.generic_select_stmts =
+  [ "data = self.data[frame_indexes]";
+    "confidence = self.confidence[frame_indexes]";
+    "return self.__class__(fps=self.fps, data=data, confidence=confidence)" ].
+Proof. exact C16_GenTie.generic_select_stmts_tie. Qed.
+Print Assumptions generic_select_stmts_tie.
+Theorem uniform_stmts_tie : Gen_C16.uniform_stmts =
+  [ "dropout_percent = np.random.uniform(low=dropout_min, high=dropout_max, size=1)[0]";
+    "return self.frame_dropout_given_percent(dropout_percent)" ].
+Proof. exact C16_GenTie.uniform_stmts_tie. Qed.
+Print Assumptions uniform_stmts_tie.
+Theorem normal_stmts_tie : Gen_C16.normal_stmts =
+  [ "dropout_percent = np.abs(np.random.normal(loc=dropout_mean, scale=dropout_std, size=1))[0]";
+    "return self.frame_dropout_given_percent(dropout_percent)" ].
+Proof. exact C16_GenTie.normal_stmts_tie. Qed.
+Print Assumptions normal_stmts_tie.
+Theorem slice_step_stmts_tie : Gen_C16.slice_step_stmts =
+  [ "new_data = self.data[::by]";
+    "new_confidence = self.confidence[::by]";
+    "new_fps = self.fps / by";
+    "return self.__class__(fps=new_fps, data=new_data, confidence=new_confidence)" ].
+Proof. exact C16_GenTie.slice_step_stmts_tie. Qed.
+Print Assumptions slice_step_stmts_tie.
+Theorem tf_dropout_stmts_tie : Gen_C16.tf_dropout_stmts =
+  [ "data_len = tf.shape(self.data.tensor)[0]";
+    "number_drop = tf.squeeze(tf.cast(data_len, dtype=tf.float32) * dropout_percent)";
+    "number_drop = tf.cast(number_drop, dtype=tf.int32)";
+    "number_sample = tf.maximum(1, data_len - number_drop)";
+    "idxs = tf.range(data_len, dtype=tf.int32)";
+    "select_indexes = tf.sort(tf.random.shuffle(idxs)[:number_sample])";
+    "select_indexes = tf.cast(select_indexes, dtype=tf.int32)";
+    "return (self.select_frames(select_indexes), select_indexes)" ].
+Proof. exact C16_GenTie.tf_dropout_stmts_tie. Qed.
+Print Assumptions tf_dropout_stmts_tie.
+Theorem tf_select_stmts_tie : Gen_C16.tf_select_stmts =
+  [ "data = self.data.gather(frame_indexes)";
+    "confidence = tf.gather(self.confidence, frame_indexes)";
+    "return self.__class__(fps=self.fps, data=data, confidence=confidence)" ].
+Proof. exact C16_GenTie.tf_select_stmts_tie. Qed.
+Print Assumptions tf_select_stmts_tie.
+Theorem tf_uniform_stmts_tie : Gen_C16.tf_uniform_stmts =
+  [ "dropout_percent = tf.random.uniform([1], minval=dropout_min, maxval=dropout_max)[0]";
+    "return self.frame_dropout_given_percent(dropout_percent)" ].
+Proof. exact C16_GenTie.tf_uniform_stmts_tie. Qed.
+Print Assumptions tf_uniform_stmts_tie.
+Theorem tf_normal_stmts_tie : Gen_C16.tf_normal_stmts =
+  [ "dropout_percent = tf.random.normal([1], mean=dropout_mean, stddev=dropout_std)[0]";
+    "dropout_percent = tf.maximum(dropout_percent, tf.constant([0.0]))";
+    "return self.frame_dropout_given_percent(dropout_percent)" ].
+Proof. exact C16_GenTie.tf_normal_stmts_tie. Qed.
+Print Assumptions tf_normal_stmts_tie.
+Theorem tf_gather_stmts_tie : Gen_C16.tf_gather_stmts =
+  [ "tensor = tf.gather(self.tensor, indexes)";
+    "mask = tf.gather(self.mask, indexes)";
+    "return MaskedTensor(tensor=tensor, mask=mask)" ].
+Proof. exact C16_GenTie.tf_gather_stmts_tie. Qed.
+Print Assumptions tf_gather_stmts_tie.
+Theorem tf_getitem_stmts_tie : Gen_C16.tf_getitem_stmts =
+  [ "if isinstance(key, list):\n    tensor = tf.gather(self.tensor, key)\n    mask = tf.gather(self.mask, key)\nelse:\n    tensor = self.tensor[key]\n    mask = self.mask[key]";
+    "return MaskedTensor(tensor=tensor, mask=mask)" ].
+Proof. exact C16_GenTie.tf_getitem_stmts_tie. Qed.
+Print Assumptions tf_getitem_stmts_tie.
+Theorem torch_getitem_stmts_tie : Gen_C16.torch_getitem_stmts =
+  [ "tensor = self.tensor[key]";
+    "mask = self.mask[key]";
+    "return MaskedTensor(tensor=tensor, mask=mask)" ].
+Proof. exact C16_GenTie.torch_getitem_stmts_tie. Qed.
+Print Assumptions torch_getitem_stmts_tie.
+Theorem torch_len_stmts_tie : Gen_C16.torch_len_stmts =
+  [ "return self.tensor.shape[0]" ].
+Proof. exact C16_GenTie.torch_len_stmts_tie. Qed.
+Print Assumptions torch_len_stmts_tie.
+Theorem pose_uniform_stmts_tie : Gen_C16.pose_uniform_stmts =
+  [ "body, selected_indexes = self.body.frame_dropout_uniform(dropout_min=dropout_min, dropout_max=dropout_max)";
+    "return (Pose(header=self.header, body=body), selected_indexes)" ].
+Proof. exact C16_GenTie.pose_uniform_stmts_tie. Qed.
+Print Assumptions pose_uniform_stmts_tie.
+Theorem pose_normal_stmts_tie : Gen_C16.pose_normal_stmts =
+  [ "body, selected_indexes = self.body.frame_dropout_normal(dropout_mean=dropout_mean, dropout_std=dropout_std)";
+    "return (Pose(header=self.header, body=body), selected_indexes)" ].
+Proof. exact C16_GenTie.pose_normal_stmts_tie. Qed.
+Print Assumptions pose_normal_stmts_tie.
+Theorem getattr_stmts_tie : Gen_C16.getattr_stmts =
+  [ "if attr not in Pose.pass_through_methods:\n    raise AttributeError(""Attribute '%s' doesn't exist on class Pose"" % attr)";
+    "def func(*args, **kwargs):\n    prop = getattr(self.body, attr)\n    body_res = prop(*args, **kwargs)\n    if isinstance(body_res, PoseBody):\n        header = self.header\n        if hasattr(header, attr):\n            header_res = getattr(header, attr)(*args, **kwargs)\n            if isinstance(header_res, PoseHeader):\n                header = header_res\n        return Pose(header, body_res)\n    return body_res";
+    "return func" ].
+Proof. exact C16_GenTie.getattr_stmts_tie. Qed.
+Print Assumptions getattr_stmts_tie.
+Theorem body_overrides_tie : Gen_C16.body_overrides =
+  [ "TensorflowPoseBody.select_frames";
+    "TensorflowPoseBody.frame_dropout_given_percent";
+    "TensorflowPoseBody.frame_dropout_uniform";
+    "TensorflowPoseBody.frame_dropout_normal" ].
+Proof. exact C16_GenTie.body_overrides_tie. Qed.
+Print Assumptions body_overrides_tie.
